@@ -17,8 +17,10 @@ EXPLANATION = (
     "R(left neighbour, right neighbour, rooted) over {SEP, NL, OTHER} in every reachable context; (flag) in whole patterns of every nesting the case flag in force at each literal is the literal's own, and every class is "
     "compiled with the case-insensitive flag known off; (dotall) every `.` is compiled with dot-all on; (homo) alternation "
     "= union of all branches in place, repetition = body{m,n} with the token's own bounds, concatenation in order; "
-    "(anchor/delegate) the pattern is ^...$ and both Program impls match with the program compiled from their own tree.")
-RULES = "C01.whole (TABLE on a catalogue: program vs. reference language), C01.leaf, C01.tree, C01.flag, C01.dotall, C01.homo, C01.anchor (EMIT), C01.delegate (SIBLING+PROV)"
+    "(anchor/delegate) the pattern is ^...$ and both Program impls match with the program compiled from their own tree; "
+    "(bounds) the parser's bound specification of a repetition, evaluated from its THIR with a model of the nom combinators "
+    "(sa/nommodel.py), gives the documented (lower, upper) for every documented form: `<a>` = 0.., `<a:>` = 1.., `:n` = n..n, `:n,` = n.., `:n,m`.")
+RULES = "C01.whole (TABLE on a catalogue: program vs. reference language), C01.leaf, C01.tree, C01.flag, C01.dotall, C01.homo, C01.anchor (EMIT), C01.delegate (SIBLING+PROV), C01.bounds (TABLE: parser function vs. README)"
 
 
 def run(ctx):
